@@ -179,6 +179,8 @@ func (p *instancePool) warmUpGun(ctx context.Context) error {
 }
 
 type poolAsyncRunHandle struct {
+	// poolCtx is done when nobody awaits pool run errors anymore: pool Run returned or was canceled.
+	poolCtx             context.Context
 	runCtx              context.Context
 	runCancel           context.CancelFunc
 	instanceStartCtx    context.Context
@@ -192,6 +194,7 @@ type poolAsyncRunHandle struct {
 }
 
 func (p *instancePool) runAsync(runCtx context.Context) (*poolAsyncRunHandle, error) {
+	poolCtx := runCtx
 	// Canceled in case all instances finish, fail or run runCancel.
 	runCtx, runCancel := context.WithCancel(runCtx)
 	_ = runCancel
@@ -223,6 +226,7 @@ func (p *instancePool) runAsync(runCtx context.Context) (*poolAsyncRunHandle, er
 		startRes <- startResult{started, err}
 	}()
 	return &poolAsyncRunHandle{
+		poolCtx:             poolCtx,
 		runCtx:              runCtx,
 		runCancel:           runCancel,
 		instanceStartCtx:    instanceStartCtx,
@@ -320,7 +324,7 @@ func (ah *runAwaitHandle) awaitRun() {
 func (ah *runAwaitHandle) onErrAwaited(err error) {
 	select {
 	case ah.awaitErr <- err:
-	case <-ah.runCtx.Done():
+	case <-ah.poolCtx.Done():
 		if err != ah.runCtx.Err() {
 			ah.log.Debug("Error suppressed after run cancel", zap.Error(err))
 		}
